@@ -69,101 +69,181 @@ DDyn(t) == [D("iface") EXCEPT !.dyn = t]
 BasicKinds == {"bool", "int", "int8", "int16", "int32", "int64", "uint", "uint8", "uint16", "uint32", "uint64", "uintptr",
                "float32", "float64", "complex64", "complex128", "string"}
 
-TypeTab ==
-  [k \in BasicKinds |-> D(k)] @@
-  \* named variants (a named type keeps the kind; it is not the identical type)
-  ("N.bool" :> D("bool")) @@ ("N.int" :> D("int")) @@ ("N.uint8" :> D("uint8")) @@ ("N.uintptr" :> D("uintptr")) @@
-  ("N.float64" :> D("float64")) @@ ("N.complex128" :> D("complex128")) @@ ("N.string" :> D("string")) @@
-  ("NN.uintptr" :> D("uintptr")) @@ ("NN.int" :> D("int")) @@
-  \* byte slices
-  ("[]byte" :> [D("slice") EXCEPT !.id = "bytes", !.elem = "uint8"]) @@ ("N.bytes" :> DE("slice", "uint8")) @@
-  \* Stringer / EnvStringer / error implementations of various kinds
-  ("T.Stringer.string" :> DI("string", {"Stringer"})) @@ ("T.Stringer.int" :> DI("int", {"Stringer"})) @@
-  ("T.Stringer.uintptr" :> DI("uintptr", {"Stringer"})) @@
-  ("T.Stringer.struct" :> [DS(<<"int">>) EXCEPT !.impl = {"Stringer"}]) @@
-  ("T.Stringer.ptr" :> [DE("ptr", "S.unexported") EXCEPT !.impl = {"Stringer"}]) @@
-  ("T.Stringer.chan" :> DI("chan", {"Stringer"})) @@ ("T.Stringer.func" :> DI("func", {"Stringer"})) @@
-  ("T.EnvStringer" :> DI("struct", {"EnvStringer"})) @@ ("T.error.struct" :> DI("struct", {"error"})) @@
-  ("T.error.ptr" :> [DE("ptr", "S.unexported") EXCEPT !.impl = {"error"}]) @@
-  ("*T.Stringer.struct" :> [DE("ptr", "T.Stringer.struct") EXCEPT !.impl = {"Stringer"}]) @@
-  ("S.unexported" :> D("struct")) @@
-  \* trusted format types and their stringer interfaces
-  ("HTML" :> DId("string", "HTML")) @@ ("CSS" :> DId("string", "CSS")) @@ ("JS" :> DId("string", "JS")) @@
-  ("JSON" :> DId("string", "JSON")) @@ ("Markdown" :> DId("string", "Markdown")) @@
-  ("T.HTMLStringer" :> DI("struct", {"HTMLStringer"})) @@ ("T.HTMLEnvStringer" :> DI("struct", {"HTMLEnvStringer"})) @@
-  ("T.CSSStringer" :> DI("struct", {"CSSStringer"})) @@ ("T.CSSEnvStringer" :> DI("struct", {"CSSEnvStringer"})) @@
-  ("T.JSStringer" :> DI("struct", {"JSStringer"})) @@ ("T.JSEnvStringer" :> DI("struct", {"JSEnvStringer"})) @@
-  ("T.JSONStringer" :> DI("struct", {"JSONStringer"})) @@ ("T.JSONEnvStringer" :> DI("struct", {"JSONEnvStringer"})) @@
-  ("T.MarkdownStringer" :> DI("struct", {"MarkdownStringer"})) @@
-  ("T.MarkdownEnvStringer" :> DI("struct", {"MarkdownEnvStringer"})) @@
-  \* slices and arrays
-  ("[]int" :> DE("slice", "int")) @@ ("[]string" :> DE("slice", "string")) @@ ("[]chan" :> DE("slice", "chan")) @@
-  ("[]func" :> DE("slice", "func")) @@ ("[]uintptr" :> DE("slice", "uintptr")) @@
-  ("[]any.int" :> DE("slice", "any.int")) @@ ("[]any.chan" :> DE("slice", "any.chan")) @@
-  ("[2]int" :> DE("array", "int")) @@ ("[1]chan" :> DE("array", "chan")) @@
-  ("[][]int" :> DE("slice", "[]int")) @@ ("[]*int" :> DE("slice", "*int")) @@
-  ("[]T.Stringer.struct" :> DE("slice", "T.Stringer.struct")) @@
-  ("any.int" :> DDyn("int")) @@ ("any.chan" :> DDyn("chan")) @@
-  \* maps
-  ("map[string]int" :> DM("string", "int")) @@ ("map[int]string" :> DM("int", "string")) @@
-  ("map[bool]int" :> DM("bool", "int")) @@ ("map[float64]int" :> DM("float64", "int")) @@
-  ("map[complex128]int" :> DM("complex128", "int")) @@ ("map[uintptr]int" :> DM("uintptr", "int")) @@
-  ("map[N.uintptr]int" :> DM("N.uintptr", "int")) @@ ("map[string]chan" :> DM("string", "chan")) @@
-  ("map[[2]int]int" :> DM("[2]int", "int")) @@
-  ("map[T.Stringer.struct]int" :> DM("T.Stringer.struct", "int")) @@
-  ("map[T.Stringer.int]int" :> DM("T.Stringer.int", "int")) @@
-  ("M.Stringer.badkey" :> [DM("[2]int", "int") EXCEPT !.impl = {"Stringer"}]) @@
-  ("N.map" :> DM("string", "int")) @@ ("map[string]any.int" :> DM("string", "any.int")) @@
-  ("map[any.int]int" :> DM("any.int", "int")) @@ ("map[string][]chan" :> DM("string", "[]chan")) @@
-  ("[]map[uintptr]int" :> DE("slice", "map[uintptr]int")) @@ ("*map[uintptr]int" :> DE("ptr", "map[uintptr]int")) @@
-  \* structs and pointers
-  ("S.ok" :> DS(<<"int", "string">>)) @@ ("S.chan" :> DS(<<"chan">>)) @@ ("S.unexpchan" :> DS(<<"int">>)) @@
-  ("S.uintptr" :> DS(<<"uintptr">>)) @@ ("S.mapuintptr" :> DS(<<"map[uintptr]int">>)) @@
-  ("*int" :> DE("ptr", "int")) @@ ("*S.ok" :> DE("ptr", "S.ok")) @@ ("*chan" :> DE("ptr", "chan")) @@
-  ("**int" :> DE("ptr", "*int")) @@ ("*uintptr" :> DE("ptr", "uintptr")) @@
-  ("Rec" :> DS(<<"int", "*Rec">>)) @@ ("*Rec" :> DE("ptr", "Rec")) @@
-  \* time, func, chan
-  ("time.Time" :> [D("struct") EXCEPT !.id = "time", !.impl = {"Stringer"}]) @@
-  ("*time.Time" :> [DE("ptr", "time.Time") EXCEPT !.impl = {"Stringer"}]) @@
-  ("func" :> D("func")) @@ ("chan" :> D("chan")) @@
-  \* the interface types a value is boxed in (static type of v for the boxed observations)
-  ("iface.any" :> DId("iface", "any")) @@
-  [n \in {"iface." \o i : i \in ImplNames} |-> DI("iface", {CHOOSE i \in ImplNames : "iface." \o i = n})]
+\* (a CASE rather than a function built with @@: TLC re-evaluates such a function on every use)
+Desc(t) ==
+  CASE t \in BasicKinds -> D(t)
+    \* named variants (a named type keeps the kind; it is not the identical type)
+    [] t = "N.bool" -> D("bool")
+    [] t = "N.int" -> D("int")
+    [] t = "N.uint8" -> D("uint8")
+    [] t = "N.uintptr" -> D("uintptr")
+    [] t = "N.float64" -> D("float64")
+    [] t = "N.complex128" -> D("complex128")
+    [] t = "N.string" -> D("string")
+    [] t = "NN.uintptr" -> D("uintptr")
+    [] t = "NN.int" -> D("int")
+    \* byte slices
+    [] t = "[]byte" -> [D("slice") EXCEPT !.id = "bytes", !.elem = "uint8"]
+    [] t = "N.bytes" -> DE("slice", "uint8")
+    \* Stringer / EnvStringer / error implementations of various kinds
+    [] t = "T.Stringer.string" -> DI("string", {"Stringer"})
+    [] t = "T.Stringer.int" -> DI("int", {"Stringer"})
+    [] t = "T.Stringer.uintptr" -> DI("uintptr", {"Stringer"})
+    [] t = "T.Stringer.struct" -> [DS(<<"int">>) EXCEPT !.impl = {"Stringer"}]
+    [] t = "T.Stringer.ptr" -> [DE("ptr", "S.unexported") EXCEPT !.impl = {"Stringer"}]
+    [] t = "T.Stringer.chan" -> DI("chan", {"Stringer"})
+    [] t = "T.Stringer.func" -> DI("func", {"Stringer"})
+    [] t = "T.EnvStringer" -> DI("struct", {"EnvStringer"})
+    [] t = "T.error.struct" -> DI("struct", {"error"})
+    [] t = "T.error.ptr" -> [DE("ptr", "S.unexported") EXCEPT !.impl = {"error"}]
+    [] t = "*T.Stringer.struct" -> [DE("ptr", "T.Stringer.struct") EXCEPT !.impl = {"Stringer"}]
+    [] t = "S.unexported" -> D("struct")
+    \* trusted format types and their stringer interfaces
+    [] t = "HTML" -> DId("string", "HTML")
+    [] t = "CSS" -> DId("string", "CSS")
+    [] t = "JS" -> DId("string", "JS")
+    [] t = "JSON" -> DId("string", "JSON")
+    [] t = "Markdown" -> DId("string", "Markdown")
+    [] t = "T.HTMLStringer" -> DI("struct", {"HTMLStringer"})
+    [] t = "T.HTMLEnvStringer" -> DI("struct", {"HTMLEnvStringer"})
+    [] t = "T.CSSStringer" -> DI("struct", {"CSSStringer"})
+    [] t = "T.CSSEnvStringer" -> DI("struct", {"CSSEnvStringer"})
+    [] t = "T.JSStringer" -> DI("struct", {"JSStringer"})
+    [] t = "T.JSEnvStringer" -> DI("struct", {"JSEnvStringer"})
+    [] t = "T.JSONStringer" -> DI("struct", {"JSONStringer"})
+    [] t = "T.JSONEnvStringer" -> DI("struct", {"JSONEnvStringer"})
+    [] t = "T.MarkdownStringer" -> DI("struct", {"MarkdownStringer"})
+    [] t = "T.MarkdownEnvStringer" -> DI("struct", {"MarkdownEnvStringer"})
+    \* slices and arrays
+    [] t = "[]int" -> DE("slice", "int")
+    [] t = "[]string" -> DE("slice", "string")
+    [] t = "[]chan" -> DE("slice", "chan")
+    [] t = "[]func" -> DE("slice", "func")
+    [] t = "[]uintptr" -> DE("slice", "uintptr")
+    [] t = "[]any.int" -> DE("slice", "any.int")
+    [] t = "[]any.chan" -> DE("slice", "any.chan")
+    [] t = "[2]int" -> DE("array", "int")
+    [] t = "[1]chan" -> DE("array", "chan")
+    [] t = "[][]int" -> DE("slice", "[]int")
+    [] t = "[]*int" -> DE("slice", "*int")
+    [] t = "[]T.Stringer.struct" -> DE("slice", "T.Stringer.struct")
+    [] t = "any.int" -> DDyn("int")
+    [] t = "any.chan" -> DDyn("chan")
+    \* maps
+    [] t = "map[string]int" -> DM("string", "int")
+    [] t = "map[int]string" -> DM("int", "string")
+    [] t = "map[bool]int" -> DM("bool", "int")
+    [] t = "map[float64]int" -> DM("float64", "int")
+    [] t = "map[complex128]int" -> DM("complex128", "int")
+    [] t = "map[uintptr]int" -> DM("uintptr", "int")
+    [] t = "map[N.uintptr]int" -> DM("N.uintptr", "int")
+    [] t = "map[string]chan" -> DM("string", "chan")
+    [] t = "map[[2]int]int" -> DM("[2]int", "int")
+    [] t = "map[T.Stringer.struct]int" -> DM("T.Stringer.struct", "int")
+    [] t = "map[T.Stringer.int]int" -> DM("T.Stringer.int", "int")
+    [] t = "M.Stringer.badkey" -> [DM("[2]int", "int") EXCEPT !.impl = {"Stringer"}]
+    [] t = "N.map" -> DM("string", "int")
+    [] t = "map[string]any.int" -> DM("string", "any.int")
+    [] t = "map[any.int]int" -> DM("any.int", "int")
+    [] t = "map[string][]chan" -> DM("string", "[]chan")
+    [] t = "[]map[uintptr]int" -> DE("slice", "map[uintptr]int")
+    [] t = "*map[uintptr]int" -> DE("ptr", "map[uintptr]int")
+    \* structs and pointers
+    [] t = "S.ok" -> DS(<<"int", "string">>)
+    [] t = "S.chan" -> DS(<<"chan">>)
+    [] t = "S.unexpchan" -> DS(<<"int">>)
+    [] t = "S.uintptr" -> DS(<<"uintptr">>)
+    [] t = "S.mapuintptr" -> DS(<<"map[uintptr]int">>)
+    [] t = "*int" -> DE("ptr", "int")
+    [] t = "*S.ok" -> DE("ptr", "S.ok")
+    [] t = "*chan" -> DE("ptr", "chan")
+    [] t = "**int" -> DE("ptr", "*int")
+    [] t = "*uintptr" -> DE("ptr", "uintptr")
+    [] t = "Rec" -> DS(<<"int", "*Rec">>)
+    [] t = "*Rec" -> DE("ptr", "Rec")
+    \* time, func, chan
+    [] t = "time.Time" -> [D("struct") EXCEPT !.id = "time", !.impl = {"Stringer"}]
+    [] t = "*time.Time" -> [DE("ptr", "time.Time") EXCEPT !.impl = {"Stringer"}]
+    [] t = "func" -> D("func")
+    [] t = "chan" -> D("chan")
+    \* the interface types a value is boxed in (static type of v for the boxed observations)
+    [] t = "iface.any" -> DId("iface", "any")
+    [] t \in {"iface." \o i : i \in ImplNames} -> DI("iface", {CHOOSE i \in ImplNames : "iface." \o i = t})
+
+NamedTypes == {"N.bool", "N.int", "N.uint8", "N.uintptr", "N.float64", "N.complex128", "N.string", "NN.uintptr",
+              "NN.int", "[]byte", "N.bytes", "T.Stringer.string", "T.Stringer.int", "T.Stringer.uintptr",
+              "T.Stringer.struct", "T.Stringer.ptr", "T.Stringer.chan", "T.Stringer.func", "T.EnvStringer",
+              "T.error.struct", "T.error.ptr", "*T.Stringer.struct", "S.unexported", "HTML", "CSS", "JS", "JSON",
+              "Markdown", "T.HTMLStringer", "T.HTMLEnvStringer", "T.CSSStringer", "T.CSSEnvStringer", "T.JSStringer",
+              "T.JSEnvStringer", "T.JSONStringer", "T.JSONEnvStringer", "T.MarkdownStringer", "T.MarkdownEnvStringer",
+              "[]int", "[]string", "[]chan", "[]func", "[]uintptr", "[]any.int", "[]any.chan", "[2]int", "[1]chan",
+              "[][]int", "[]*int", "[]T.Stringer.struct", "any.int", "any.chan", "map[string]int", "map[int]string",
+              "map[bool]int", "map[float64]int", "map[complex128]int", "map[uintptr]int", "map[N.uintptr]int",
+              "map[string]chan", "map[[2]int]int", "map[T.Stringer.struct]int", "map[T.Stringer.int]int",
+              "M.Stringer.badkey", "N.map", "map[string]any.int", "map[any.int]int", "map[string][]chan",
+              "[]map[uintptr]int", "*map[uintptr]int", "S.ok", "S.chan", "S.unexpchan", "S.uintptr", "S.mapuintptr",
+              "*int", "*S.ok", "*chan", "**int", "*uintptr", "Rec", "*Rec", "time.Time", "*time.Time", "func", "chan",
+              "iface.any"}
+TypeNames == BasicKinds \cup NamedTypes \cup {"iface." \o i : i \in ImplNames}
 
 \* name of the interface type a box stands for
 BoxType(box) == "iface." \o box
 
-\* the type classes that form the grid (the other entries of TypeTab are element types / box types)
+\* the type classes that form the grid (the other names are element types / box types)
 AuxTypes == {"S.unexported", "any.int", "any.chan", "*Rec", "iface.any"} \cup {"iface." \o i : i \in ImplNames}
-TypeClasses == DOMAIN TypeTab \ AuxTypes
+TypeClasses == TypeNames \ AuxTypes
 
 Has(d, i) == i \in d.impl
 InSeq(x, s) == \E i \in 1..Len(s) : s[i] = x
 
 \* ---- contexts: registered context name -> ast context (spelled as ast.Context.String()) and URL flag
-CtxTab ==
-  ("text" :> <<"text", FALSE>>) @@ ("html" :> <<"HTML", FALSE>>) @@ ("tag" :> <<"tag", FALSE>>) @@
-  ("qattr" :> <<"quoted attribute", FALSE>>) @@ ("uattr" :> <<"unquoted attribute", FALSE>>) @@
-  ("css" :> <<"CSS", FALSE>>) @@ ("cssstr" :> <<"CSS string", FALSE>>) @@
-  ("js" :> <<"JavaScript", FALSE>>) @@ ("jsstr" :> <<"JavaScript string", FALSE>>) @@
-  ("json" :> <<"JSON", FALSE>>) @@ ("jsonstr" :> <<"JSON string", FALSE>>) @@
-  ("md" :> <<"Markdown", FALSE>>) @@ ("tabcode" :> <<"tab code block", FALSE>>) @@
-  ("spacescode" :> <<"spaces code block", FALSE>>) @@
-  ("urlq" :> <<"quoted attribute", TRUE>>) @@ ("urlu" :> <<"unquoted attribute", TRUE>>) @@
-  ("urlquery" :> <<"quoted attribute", TRUE>>) @@ ("urlset" :> <<"quoted attribute", TRUE>>) @@
-  ("mdurl" :> <<"Markdown", TRUE>>) @@
-  ("html.css" :> <<"CSS", FALSE>>) @@ ("html.cssstr" :> <<"CSS string", FALSE>>) @@
-  ("html.js" :> <<"JavaScript", FALSE>>) @@ ("html.jsstr" :> <<"JavaScript string", FALSE>>) @@
-  ("html.json" :> <<"JSON", FALSE>>) @@ ("html.jsonstr" :> <<"JSON string", FALSE>>) @@
-  ("md.tag" :> <<"tag", FALSE>>) @@ ("md.qattr" :> <<"quoted attribute", FALSE>>) @@ ("md.js" :> <<"JavaScript", FALSE>>) @@
-  ("stmt.html" :> <<"HTML", FALSE>>) @@ ("stmt2.html" :> <<"HTML", FALSE>>) @@ ("if.js" :> <<"JavaScript", FALSE>>) @@
-  ("for.text" :> <<"text", FALSE>>) @@ ("macro.html" :> <<"HTML", FALSE>>) @@ ("macro.json" :> <<"JSON", FALSE>>) @@
-  ("macro.css" :> <<"CSS", FALSE>>) @@ ("import.html" :> <<"quoted attribute", FALSE>>) @@
-  ("import.js" :> <<"JavaScript", FALSE>>) @@ ("extends.md" :> <<"Markdown", FALSE>>) @@
-  ("render.text" :> <<"text", FALSE>>)
+CtxOf(c) ==
+  CASE c = "text" -> <<"text", FALSE>>
+    [] c = "html" -> <<"HTML", FALSE>>
+    [] c = "tag" -> <<"tag", FALSE>>
+    [] c = "qattr" -> <<"quoted attribute", FALSE>>
+    [] c = "uattr" -> <<"unquoted attribute", FALSE>>
+    [] c = "css" -> <<"CSS", FALSE>>
+    [] c = "cssstr" -> <<"CSS string", FALSE>>
+    [] c = "js" -> <<"JavaScript", FALSE>>
+    [] c = "jsstr" -> <<"JavaScript string", FALSE>>
+    [] c = "json" -> <<"JSON", FALSE>>
+    [] c = "jsonstr" -> <<"JSON string", FALSE>>
+    [] c = "md" -> <<"Markdown", FALSE>>
+    [] c = "tabcode" -> <<"tab code block", FALSE>>
+    [] c = "spacescode" -> <<"spaces code block", FALSE>>
+    [] c = "urlq" -> <<"quoted attribute", TRUE>>
+    [] c = "urlu" -> <<"unquoted attribute", TRUE>>
+    [] c = "urlquery" -> <<"quoted attribute", TRUE>>
+    [] c = "urlset" -> <<"quoted attribute", TRUE>>
+    [] c = "mdurl" -> <<"Markdown", TRUE>>
+    [] c = "html.css" -> <<"CSS", FALSE>>
+    [] c = "html.cssstr" -> <<"CSS string", FALSE>>
+    [] c = "html.js" -> <<"JavaScript", FALSE>>
+    [] c = "html.jsstr" -> <<"JavaScript string", FALSE>>
+    [] c = "html.json" -> <<"JSON", FALSE>>
+    [] c = "html.jsonstr" -> <<"JSON string", FALSE>>
+    [] c = "md.tag" -> <<"tag", FALSE>>
+    [] c = "md.qattr" -> <<"quoted attribute", FALSE>>
+    [] c = "md.js" -> <<"JavaScript", FALSE>>
+    [] c = "stmt.html" -> <<"HTML", FALSE>>
+    [] c = "stmt2.html" -> <<"HTML", FALSE>>
+    [] c = "if.js" -> <<"JavaScript", FALSE>>
+    [] c = "for.text" -> <<"text", FALSE>>
+    [] c = "macro.html" -> <<"HTML", FALSE>>
+    [] c = "macro.json" -> <<"JSON", FALSE>>
+    [] c = "macro.css" -> <<"CSS", FALSE>>
+    [] c = "import.html" -> <<"quoted attribute", FALSE>>
+    [] c = "import.js" -> <<"JavaScript", FALSE>>
+    [] c = "extends.md" -> <<"Markdown", FALSE>>
+    [] c = "render.text" -> <<"text", FALSE>>
+AllCtxs == {"text", "html", "tag", "qattr", "uattr", "css", "cssstr", "js", "jsstr", "json", "jsonstr", "md",
+           "tabcode", "spacescode", "urlq", "urlu", "urlquery", "urlset", "mdurl", "html.css", "html.cssstr",
+           "html.js", "html.jsstr", "html.json", "html.jsonstr", "md.tag", "md.qattr", "md.js", "stmt.html",
+           "stmt2.html", "if.js", "for.text", "macro.html", "macro.json", "macro.css", "import.html", "import.js",
+           "extends.md", "render.text"}
 BaseCtxs == {"text", "html", "tag", "qattr", "uattr", "css", "cssstr", "js", "jsstr", "json", "jsonstr", "md",
              "tabcode", "spacescode", "urlq", "urlu", "urlquery", "urlset", "mdurl"}
-AllCtxs == DOMAIN CtxTab
 
 \* the three groups of contexts by the way a value is shown; used only to keep signatures specific
 CtxClass(a) == IF a = "JavaScript" THEN "js" ELSE IF a = "JSON" THEN "json" ELSE "scalar"
@@ -175,7 +255,7 @@ StringCtxs == {"text", "tag", "quoted attribute", "unquoted attribute", "CSS str
 RECURSIVE ChkJSLike(_, _, _)
 \* checkShowJS (lang = "JS") and checkShowJSON (lang = "JSON"); vis is the `types` argument
 ChkJSLike(lang, t, vis) ==
-  LET d == TypeTab[t] IN
+  LET d == Desc(t) IN
   IF InSeq(t, vis) THEN TRUE                                              \* slices.Contains(types, t)
   ELSE IF \/ Between(d.kind, "bool", "float64") \/ d.kind = "string" \/ d.id = "time"
           \/ Has(d, lang \o "Stringer") \/ Has(d, lang \o "EnvStringer") \/ Has(d, "error")
@@ -184,7 +264,7 @@ ChkJSLike(lang, t, vis) ==
        CASE d.kind = "array" -> ChkJSLike(lang, d.elem, vis2)
          [] d.kind = "iface" -> TRUE
          [] d.kind = "map" ->
-              LET kd == TypeTab[d.key]
+              LET kd == Desc(d.key)
                   sd == IF FixMapKey THEN kd ELSE d       \* the code tests t.Implements(...) on the map type
               IN /\ \/ kd.kind = "string"
                     \/ Between(kd.kind, "bool", "complex128")
@@ -197,7 +277,7 @@ ChkJSLike(lang, t, vis) ==
          [] OTHER -> FALSE
 
 CheckShow(a, t) ==
-  LET d == TypeTab[t] IN
+  LET d == Desc(t) IN
   IF d.id = "any" THEN TRUE                                               \* t == emptyInterfaceType
   ELSE CASE a \in StringCtxs ->
               \/ d.kind = "string"
@@ -259,7 +339,7 @@ RECURSIVE ShowInJSLike(_, _, _, _)
 \* otherwise the driver's value is non-nil with one element.  vis guards the recursive type Rec, whose
 \* value ends in a nil pointer.
 ShowInJSLike(lang, t, z, vis) ==
-  LET d == TypeTab[t] IN
+  LET d == Desc(t) IN
   IF d.kind = "iface" THEN (IF z \/ d.dyn = "" THEN "ok" ELSE ShowInJSLike(lang, d.dyn, FALSE, vis))   \* case nil: "null"
   ELSE IF \/ d.id = lang \/ Has(d, lang \o "Stringer") \/ Has(d, lang \o "EnvStringer")
           \/ d.id = "time" \/ Has(d, "error")
@@ -275,14 +355,14 @@ ShowInJSLike(lang, t, z, vis) ==
               AllOk({ShowInJSLike(lang, d.fields[i], z, vis2) : i \in 1..Len(d.fields)})
          [] d.kind = "map" ->
               IF z THEN "ok"
-              ELSE LET k0 == TypeTab[d.key]
-                       kd == IF k0.kind = "iface" THEN TypeTab[k0.dyn] ELSE k0      \* key.Interface().(type)
+              ELSE LET k0 == Desc(d.key)
+                       kd == IF k0.kind = "iface" THEN Desc(k0.dyn) ELSE k0      \* key.Interface().(type)
                        ks == IF Has(kd, "Stringer") \/ Has(kd, "EnvStringer") THEN "ok" ELSE ToStr(kd)
                    IN AllOk({ks, ShowInJSLike(lang, d.elem, FALSE, vis2)})
          [] OTHER -> "ok"          \* JS: "undefined/* scriggo: cannot represent ... */", JSON: "null" - no error
 
 Render(a, url, t, z) ==
-  LET d == TypeTab[t] IN
+  LET d == Desc(t) IN
   IF url THEN ShowInURL(a, d)
   ELSE CASE a \in {"text", "tag", "JavaScript string", "JSON string", "tab code block", "spaces code block"} -> ShowInText(d)
          [] a = "HTML" -> ShowInHTML(d)
@@ -294,7 +374,7 @@ Render(a, url, t, z) ==
          [] a = "Markdown" -> ShowInMarkdown(d)
 
 \* ---- the property on the model, for one cell
-ModelB(c, t) == CheckShow(CtxTab[c][1], t)
-ModelR(c, t, z) == Render(CtxTab[c][1], CtxTab[c][2], t, z) = "cannotshow"
-ModelBoxB(c, box) == CheckShow(CtxTab[c][1], BoxType(box))
+ModelB(c, t) == CheckShow(CtxOf(c)[1], t)
+ModelR(c, t, z) == Render(CtxOf(c)[1], CtxOf(c)[2], t, z) = "cannotshow"
+ModelBoxB(c, box) == CheckShow(CtxOf(c)[1], BoxType(box))
 =============================================================================
